@@ -111,20 +111,20 @@ def _check_main(run, P):
         run.rule_docs.setdefault(r_, "")
         run.minimum.setdefault(r_, 0)
     n0_ = len(run.obs)
-    _c09._arity_tables(run, P)
-    _c09._real(run, P)
+    run.do(_c09._arity_tables, run, P)
+    run.do(_c09._real, run, P)
     for o_ in run.obs[n0_:]:
         if o_.rule in ("C09.arity", "C09.tables", "C09.real"):
             o_.rule = "C14.builtins"
     for r_ in ("C09.arity", "C09.tables", "C09.real"):
         run.rule_docs.pop(r_, None)
         run.minimum.pop(r_, None)
-    _eq(run, P)
-    _defer(run, P)
-    _sweeps(run, P)
-    _mapper(run, P)
-    _kind_attrs(run, P)
-    _pairing(run, P)
+    run.do(_eq, run, P)
+    run.do(_defer, run, P)
+    run.do(_sweeps, run, P)
+    run.do(_mapper, run, P)
+    run.do(_kind_attrs, run, P)
+    run.do(_pairing, run, P)
 
     f = P.func(f"{DATA}.unify")
     dom = kind_domain(P)
@@ -187,8 +187,8 @@ def _check_main(run, P):
                          f"{fmt(a)} | ({fmt(b)} | {fmt(c)}) = {fmt(r) if r else 'undefined'}",
                why="grouping of successive assignments must not matter")
 
-    _table_update(run, P)
-    _worklist(run, P)
+    run.do(_table_update, run, P)
+    run.do(_worklist, run, P)
 
 
 def _is_unify_call(n):
